@@ -302,7 +302,35 @@ def load(lines, what="graph"):
         raise Violation("load", "%s not loaded: %s: %s\n%s" % (what, type(e).__name__, str(e)[:300], "\n".join(text)), type(e).__name__)
 
 
+def prop_twin(case):
+    """Two identical unnamed E lines are two edges: a path that leaves the edge between their two segments out is
+    ambiguous (reported as an error), and the set of all segments induces every E line, both twins included."""
+    lines, pid = case["lines"], case["path"]
+    g, text = load(lines)
+    ctx = "path %s\n%s" % (pid, "\n".join(text))
+    try:
+        cp = [str(x) for x in g.line(pid).captured_path]
+    except GfapyError:
+        cp = None
+    except Exception as e:
+        raise Violation("foreign", "%s\ncaptured_path raised %s: %s" % (ctx, type(e).__name__, str(e)[:300]), type(e).__name__)
+    if cp is not None:
+        raise Violation("ambiguity-accepted", "%s\ntwo identical edges join %s, the items leave the edge between them out, but captured_path = %s" % (ctx, case["twin_of"], cp))
+    try:
+        ie = g.line("uall").induced_edges_set
+        iseg = g.line("uall").induced_segments_set
+    except Exception as e:
+        raise Violation("induced-raised", "%s\ninduced sets of the set of all segments raised %s: %s" % (ctx, type(e).__name__, str(e)[:200]), type(e).__name__)
+    n_e = sum(1 for l in lines if l[0] == "E")
+    if len(ie) != n_e or len(set(id(x) for x in ie)) != n_e or len(iseg) != len(case["segs"]):
+        raise Violation("induced-twin", "%s\nthe set of all %d segments induces %d edges (%d distinct objects), the document has %d E lines" % (
+            ctx, len(case["segs"]), len(ie), len(set(id(x) for x in ie)), n_e))
+    return {"nt": True, "mode": "twin"}
+
+
 def prop_paths(case):
+    if case.get("mode") == "twin":
+        return prop_twin(case)
     lines, pid, segs = case["lines"], case["path"], case["segs"]
     edges = {l[1][0]: (l[1][1], l[1][2]) for l in lines if l[0] == "E"}
     groups = {l[1][0]: l[1][1].split(" ") for l in lines if l[0] == "O"}
@@ -416,7 +444,26 @@ def build_tail_case(r):
 @st.composite
 def st_paths(draw):
     r = draw(st.randoms(use_true_random=False))
-    mode = gen.choice(r, ["planted", "planted", "planted", "edges", "drop", "swap", "parallel", "random", "tail", "tail"])
+    mode = gen.choice(r, ["planted", "planted", "planted", "edges", "drop", "swap", "parallel", "random", "tail", "tail", "twin"])
+    if mode == "twin":
+        segs, slen, lines, edges, pg, walk = build_paths_case(r)
+        once = [k for k in range(1, len(walk), 2) if sum(1 for x in walk if x[:-1] == walk[k][:-1]) == 1]
+        if once:
+            k = gen.choice(r, once)
+            name = walk[k][:-1]
+            for l in lines:
+                if l[0] == "E" and l[1][0] == name:
+                    l[1][0] = "*"
+                    twin = ["E", list(l[1]), [list(t) for t in l[2]]]
+            lines.append(twin)
+            lines.append(["O", ["pp", " ".join(walk[0::2])], []])
+            lines.append(["U", ["uall", " ".join(segs)], []])
+            order = list(range(len(lines)))
+            if gen.chance(r, 0.4):
+                r.shuffle(order)
+            return {"lines": [lines[i] for i in order], "path": "pp", "segs": segs, "planted": None, "rev": None,
+                    "elided_edge": True, "from_valid": True, "mode": "twin", "twin_of": [walk[k - 1], walk[k + 1]]}
+        mode = "planted"
     tail = build_tail_case(r) if mode == "tail" else None
     if tail is not None:
         segs, slen, lines, edges, pg, walk, items = tail
